@@ -20,7 +20,9 @@ Bindings == {"redirect", "post", "soap"}
 Sigs == {"none", "valid", "invalid", "wrapped"}
 Muts == {"none", "dest_foreign", "dest_absent", "dest_other_binding", "stale", "future", "wrong_root", "schema",
          "garbled_base64", "garbled_deflate", "truncated_xml", "not_xml"}
-Scn == [rtype : Types, binding : Bindings, sig : Sigs, want : BOOLEAN, mut : Muts, endpoint : {"configured", "otherBindingOnly"}]
+\* issuerKey: metadata holds a signing key for the requester, or none
+Scn == [rtype : Types, binding : Bindings, sig : Sigs, want : BOOLEAN, mut : Muts, endpoint : {"configured", "otherBindingOnly"},
+        issuerKey : {"known", "nokey"}]
 WellFormed(s) ==
     /\ (s.rtype = "authn" => s.binding \in {"redirect", "post"})
     /\ (s.rtype = "attrquery" => s.binding = "soap" /\ s.endpoint = "configured")
@@ -30,6 +32,7 @@ WellFormed(s) ==
     /\ (s.mut = "garbled_base64" => s.binding # "soap")
     /\ (s.endpoint = "otherBindingOnly" => s.binding = "post")    \* receiver publishes a redirect endpoint only
     /\ (s.mut = "dest_other_binding" => s.endpoint = "configured" /\ s.rtype # "attrquery")
+    /\ (s.issuerKey = "nokey" => s.sig \in {"valid", "invalid"} /\ s.mut = "none" /\ s.endpoint = "configured")
 
 VARIABLES scn, pc, verdict
 vars == <<scn, pc, verdict>>
@@ -43,6 +46,7 @@ Signature ==
     /\ pc = "signature"
     /\ IF scn.mut \in {"truncated_xml", "not_xml", "wrong_root"} THEN Refuse
        ELSE IF scn.sig = "none" THEN (IF scn.want THEN Refuse ELSE Goto("schema"))
+       ELSE IF scn.issuerKey = "nokey" THEN Refuse          \* MissingKey: nothing to verify the signature with
        ELSE IF scn.sig = "valid" THEN Goto("schema")
        ELSE Refuse                                          \* invalid; wrapped (repaired _check_signature)
 Schema == pc = "schema" /\ IF scn.mut = "schema" THEN Refuse ELSE Goto("verify")
@@ -59,8 +63,9 @@ Verify ==
 MustRefuse == \/ scn.mut \in {"dest_foreign", "stale", "future", "wrong_root", "schema", "garbled_base64",
                               "garbled_deflate", "truncated_xml", "not_xml"}
               \/ scn.sig \in {"invalid", "wrapped"}
+              \/ (scn.sig # "none" /\ scn.issuerKey = "nokey")          \* a signature must verify under the issuer's metadata key
               \/ (scn.want /\ scn.sig = "none")
-MustHand == /\ scn.mut \in {"none", "dest_absent"} /\ scn.endpoint = "configured"
+MustHand == /\ scn.mut \in {"none", "dest_absent"} /\ scn.endpoint = "configured" /\ scn.issuerKey = "known"
             /\ (scn.sig = "valid" \/ (scn.sig = "none" /\ ~scn.want))
 Emit == /\ pc = "done" /\ pc' = "emitted" /\ UNCHANGED <<scn, verdict>>
         /\ PrintT(<<"CASE", ToJson([scn |-> scn, model |-> verdict, mustRefuse |-> MustRefuse, mustHand |-> MustHand])>>)
